@@ -161,10 +161,10 @@ func (op *Element[T]) Resize(degree, level int) {
 
 	switch op := any(op).(type) {
 	case *Element[ring.Poly]:
-		if op.Level() != level {
-			for i := range op.Value {
-				op.Value[i].Resize(level)
-			}
+		// Every polynomial is brought to the target level (ring.Poly.Resize does nothing when the level
+		// already matches): the level of Value[0] says nothing about the other polynomials.
+		for i := range op.Value {
+			op.Value[i].Resize(level)
 		}
 
 		if op.Degree() > degree {
